@@ -16,6 +16,7 @@ type SV struct {
 	Sort string
 	Typ  types.Type // nil for spec-only sorts
 	Pkg  *types.Package // set when the "value" is a package qualifier
+	Loc  *Loc           // captured variable of a closure: loaded from the state the clause is evaluated in
 }
 
 type SpecCtx struct {
@@ -34,6 +35,7 @@ type SpecCtx struct {
 	self    *SV
 	depth   int
 	loop    *loopInfo
+	iter    *St // state at the start of the current loop iteration (step clauses)
 	localSt *St // state in which local variables are read (always the current one, also under old())
 }
 
@@ -365,12 +367,30 @@ func (e *Enc) evalIdent(name string, ctx *SpecCtx) (SV, error) {
 		c := e.comps[best]
 		return SV{T: e.get(ctx.cur, c), Sort: c.Sort}, nil
 	}
+	if ctx.fr != nil && ctx.fr.caller == nil && ctx.fr.fn.Parent() != nil {
+		for i, fv := range ctx.fr.fn.FreeVars {
+			if fv.Name() == name && i < len(ctx.fr.binds) {
+				if _, isParam := ctx.params[name]; isParam {
+					break
+				}
+				t := fv.Type().Underlying().(*types.Pointer).Elem()
+				if isObjStruct(t) {
+					return SV{T: ctx.fr.binds[i].T, Sort: "Ref", Typ: fv.Type()}, nil
+				}
+				loc := e.addrLoc(ctx.fr.binds[i], t)
+				return SV{T: e.loadLoc(loc, ctx.cur), Sort: e.sortOf(t), Typ: t}, nil
+			}
+		}
+	}
 	if ctx.locals && ctx.fr != nil {
 		if sv, ok := e.lookupLocal(ctx.fr, name, lst); ok {
 			return sv, nil
 		}
 	}
 	if v, ok := ctx.params[name]; ok {
+		if v.Loc != nil {
+			return SV{T: e.loadLoc(v.Loc, ctx.cur), Sort: e.sortOf(v.Typ), Typ: v.Typ}, nil
+		}
 		return v, nil
 	}
 	if g := e.cs.Ghosts[name]; g != nil {
@@ -826,6 +846,7 @@ func (e *Enc) evalCall(n *SCall, ctx *SpecCtx) (SV, error) {
 			switch t := v.Typ.Underlying().(type) {
 			case *types.Map:
 				_, _, l := e.mapComps(t)
+				e.mapLenFact(t, v.T, ctx.cur)
 				return SV{T: sel(e.get(ctx.cur, l), v.T), Sort: "Int", Typ: types.Typ[types.Int]}, nil
 			case *types.Slice:
 				return SV{T: "(s_len " + v.T + ")", Sort: "Int", Typ: types.Typ[types.Int]}, nil
@@ -977,6 +998,54 @@ func (e *Enc) evalCall(n *SCall, ctx *SpecCtx) (SV, error) {
 			}
 		}
 		if c == nil {
+			// interface method Iface.Method (of this package or an imported one) never invoked here
+			raw := n.Args[0].String()
+			if dot := strings.LastIndex(raw, "."); dot > 0 && !strings.Contains(raw, "(") {
+				in, mn := raw[:dot], raw[dot+1:]
+				var obj types.Object
+				if q := strings.Index(in, "."); q > 0 {
+					if ip := e.importedPkg(ctx.pkg, in[:q]); ip != nil {
+						obj = ip.Scope().Lookup(in[q+1:])
+					}
+				} else {
+					obj = e.lookupPkgObject(ctx.pkg, in)
+					if obj == nil {
+						// e.g. Conn.RemotePeer: search the imports
+						if pk := e.w.pkgOf(ctx.pkg); pk != nil {
+							for _, imp := range pk.Types.Imports() {
+								if o := imp.Scope().Lookup(in); o != nil {
+									obj = o
+									break
+								}
+							}
+						}
+					}
+				}
+				if tn, ok := obj.(*types.TypeName); ok {
+					if it, ok := tn.Type().Underlying().(*types.Interface); ok {
+						for i := 0; i < it.NumMethods(); i++ {
+							m := it.Method(i)
+							if m.Name() != mn {
+								continue
+							}
+							sig := m.Type().(*types.Signature)
+							var t types.Type
+							if (n.Fn == "lastret" || n.Fn == "firstret") && idx < sig.Results().Len() {
+								t = sig.Results().At(idx).Type()
+							} else if n.Fn == "lastarg" && idx == 0 {
+								t = tn.Type()
+							} else if n.Fn == "lastarg" && idx-1 < sig.Params().Len() {
+								t = sig.Params().At(idx - 1).Type()
+							}
+							if t != nil {
+								c = e.comp(cn, e.sortOf(t), "ghost", "G:calls:"+name)
+							}
+						}
+					}
+				}
+			}
+		}
+		if c == nil {
 			return SV{}, fmt.Errorf("%s(%s): no such call in this function (component %s unknown)", n.Fn, name, cn)
 		}
 		var typ types.Type
@@ -1111,6 +1180,48 @@ func (e *Enc) evalCall(n *SCall, ctx *SpecCtx) (SV, error) {
 		}
 		c := e.comp("ctxdone", "(Array Iface Bool)", "ghost", "G:ctxdone")
 		return SV{T: sel(e.get(ctx.cur, c), v.T), Sort: "Bool"}, nil
+	case "iter":
+		if ctx.iter == nil {
+			return SV{}, fmt.Errorf("iter() outside a loop step clause")
+		}
+		return e.evalSpec(n.Args[0], ctx.withState(ctx.iter))
+	case "received", "lastrecv":
+		// received(x.f): number of values received through channel field f of x;
+		// lastrecv(x.f): the last of them
+		sf, ok := n.Args[0].(*SField)
+		if !ok {
+			return SV{}, fmt.Errorf("%s: argument must be a channel field x.f", n.Fn)
+		}
+		base, err := e.evalSpec(sf.X, ctx)
+		if err != nil {
+			return SV{}, err
+		}
+		stT, ok := derefStruct(base.Typ)
+		if !ok {
+			return SV{}, fmt.Errorf("%s: %s is not a struct pointer", n.Fn, sf.X)
+		}
+		u := stT.Underlying().(*types.Struct)
+		var ft types.Type
+		for i := 0; i < u.NumFields(); i++ {
+			if u.Field(i).Name() == sf.Name {
+				ft = u.Field(i).Type()
+			}
+		}
+		if ft == nil {
+			return SV{}, fmt.Errorf("%s: no field %s", n.Fn, sf.Name)
+		}
+		ch, ok := ft.Underlying().(*types.Chan)
+		if !ok {
+			return SV{}, fmt.Errorf("%s: field %s is not a channel", n.Fn, sf.Name)
+		}
+		key := e.structName(stT) + "_" + sanitize(sf.Name)
+		if n.Fn == "received" {
+			c := e.comp("chrecv_"+key, "(Array Ref Int)", "ghost", "G:recv")
+			return SV{T: sel(e.get(ctx.cur, c), base.T), Sort: "Int"}, nil
+		}
+		srt := e.sortOf(ch.Elem())
+		c := e.comp("chlast_"+key, "(Array Ref "+srt+")", "ghost", "G:recv")
+		return SV{T: sel(e.get(ctx.cur, c), base.T), Sort: srt, Typ: ch.Elem()}, nil
 	case "lin":
 		// evaluate at the linearisation point (last lock acquisition / wait return)
 		ls := &St{v: map[string]string{}}
